@@ -195,3 +195,9 @@ package phase5
 //@   ensures[|C01] len(rects) >= len(r.ns) - 1
 //@   loop for(i<len(r.ns))#1
 //@     invariant[|C01] len(rects) >= i - 1
+
+// phase5.Alg.Process (C01): one of the documented routers. What the routers need from the merged routes (routesOK, band
+// indices, anchors apart) is produced by mergeLongEdges, which is not under a functional contract: those call
+// preconditions are excluded from the claim by description (props.json "except").
+//@ func Alg.Process
+//@   requires[|C01] g != nil && (alg == NoRouting || alg == Straight || alg == Polyline || alg == Ortho || alg == Splines)
